@@ -6,6 +6,10 @@ ALL = ["C%02d" % i for i in range(1, 21)]
 
 # id -> (technique, level text, level note, design ref)
 CLAIMED = {
+ "C13": ("property-based testing (rapid): differential AVX2 vs SSE, routine level (both variants in one process) and API level (two worker processes under SONIC_MODE)",
+         "Generated arguments are given to the AVX2 and the SSE build of every native routine side by side and all outputs compared bit for bit; generated decode/encode cases are replayed in worker processes started with SONIC_MODE=auto and SONIC_MODE=noavx2 and their transcripts compared. Exploration.",
+         "Trusted: verifhook.LoadNatives exposes the same entry points the dispatch table uses; the worker protocol (props/worker.go).",
+         "DESIGN.md §7 C13"),
  "C18": ("property-based testing (rapid): metamorphic relations between switch-off and switch-on results (one switch vs random setting of the others) and equality across equivalent entry points",
          "For each configuration switch a generated input is processed twice, with the switch off and on, under a random setting of all other switches, and the documented relation between the two results is checked (plus identity when the input lacks the feature); the convenience entry points and setter methods are compared with the corresponding frozen Config. Exploration.",
          "Trusted: encoding/json (HTMLEscape, Indent, Compact, DisallowUnknownFields), harness/ref.",
